@@ -1,7 +1,30 @@
----- MODULE MCRwLock ----
+------------------------------ MODULE MCRwLock ------------------------------
+(* Model-checking / behaviour-export wrapper of RwLock.tla (see MCMutex.tla). *)
 EXTENDS RwLock
-P1 == [a \in {"a1", "a2"} |-> IF a = "a1" THEN "try_read" ELSE "write"]
-P2 == [a \in {"a1", "a2"} |-> "write"]
-P3 == [a \in {"a1", "a2", "a3"} |-> IF a = "a1" THEN "try_read" ELSE IF a = "a2" THEN "read" ELSE "write"]
-P4 == [a \in {"a1", "a2", "a3"} |-> IF a = "a1" THEN "try_write" ELSE IF a = "a2" THEN "read" ELSE "write"]
-====
+VARIABLE last
+\* clean lock: reader, try-reader + writer, writer that is cancelled while waiting
+Pc3 == [a \in Actors |-> CASE a = "a1" -> <<"read", "try_write">> [] a = "a2" -> <<"write">> [] OTHER -> <<"try_read", "read">>]
+\* poisoning: a1 panics while writing, the others keep using the lock through the PoisonError
+Pp3 == [a \in Actors |-> CASE a = "a1" -> <<"wpanic">> [] a = "a2" -> <<"try_read", "write">> [] OTHER -> <<"write", "try_write">>]
+\* already poisoned: the two defects' minimal programs and a mixed one
+Pf1 == [a \in Actors |-> CASE a = "a1" -> <<"try_read">> [] OTHER -> <<"write">>]
+Pf2 == [a \in Actors |-> <<"write">>]
+Pq3 == [a \in Actors |-> CASE a = "a1" -> <<"try_read", "read">> [] a = "a2" -> <<"write">> [] OTHER -> <<"try_write", "read">>]
+MCInit == Init /\ last = <<"", "", -1>>
+MCNext ==
+  \/ \E a \in Actors : Step(a) /\ last' = <<a, pc[a], Obs(a)>>
+  \/ \E a \in Actors : Internal(a) /\ last' = <<"~", a, -1>>
+  \/ \E a \in Actors : Cancel(a) /\ last' = <<"!cancel", a, -1>>
+  \/ Stutter /\ UNCHANGED last
+MCSpec == MCInit /\ [][MCNext]_<<vars, last>>
+\* behaviours realizable under the baton: internal steps are urgent (they complete before anybody else
+\* moves).  Used for behaviour export only; the exhaustive check explores MCSpec, a superset.
+MCNextU ==
+  IF \E a \in Actors : pc[a] \in InternalPcs
+    THEN \E a \in Actors : Internal(a) /\ last' = <<"~", a, -1>>
+    ELSE \/ \E a \in Actors : Step(a) /\ last' = <<a, pc[a], Obs(a)>>
+         \/ \E a \in Actors : Cancel(a) /\ last' = <<"!cancel", a, -1>>
+         \/ Stutter /\ UNCHANGED last
+MCSpecU == MCInit /\ [][MCNextU]_<<vars, last>>
+View == vars
+=============================================================================
